@@ -33,14 +33,7 @@ func ruleBootstrapTxn(c *Ctx) {
 			then = s.Then
 		}
 		c.Check(s.Then == then, rule, construct+" (same txn)", "all bootstrap writes are the Then of one transaction", P.instrPos(s.Op), "flows into a different transaction")
-		okCR := false
-		for _, cm := range s.Cmps {
-			if cm.Target == "CreateRevision" && cm.Op == "=" && cm.Key != nil && sameVal(cm.Key, rootKey) {
-				if z, ok := constInt(cm.Val); ok && z == 0 {
-					okCR = true
-				}
-			}
-		}
+		okCR := s.hasCreateRevisionZero(P, rootKey) // on every control-flow alternative of the If argument
 		c.Check(s.HasIf && okCR, rule, construct+" (guard)", "If(CreateRevision(clusterRootPath) == 0): exactly one bootstrap can be applied", P.instrPos(s.Op), "guard missing or on a different key")
 	}
 	// the first put is the cluster root key itself (the guard key is written by the txn)
@@ -131,7 +124,7 @@ func ruleClusterID(c *Ctx) {
 	if site == nil {
 		undecidedf("no put in initOrGetClusterID")
 	}
-	c.Check(site.hasCreateRevisionZero(site.Key), rule, "put of cluster id in "+fnName(fn), "If(CreateRevision(key) == 0): only the first member's value is stored", P.instrPos(site.Op), "")
+	c.Check(site.hasCreateRevisionZero(P, site.Key), rule, "put of cluster id in "+fnName(fn), "If(CreateRevision(key) == 0): only the first member's value is stored", P.instrPos(site.Op), "")
 	// Else(Get(key)) present
 	hasElse := false
 	for _, b := range fn.Blocks {
